@@ -48,6 +48,10 @@ NEGS = [
     ("NEG_BoxLang_FormatDropsCommas.cfg", "the reference formatter drops the separators between arguments"),
 ]
 
+QUICK_NEGS = {"NEG_BoxLang_NoFlushAtEnd.cfg", "NEG_BoxLang_DevRatioSign.cfg", "NEG_BoxLang_DuplicateOverwrites.cfg",
+              "NEG_BoxLang_PrintStopEarly.cfg", "NEG_BoxLang_NoEscapeBackslash.cfg", "NEG_BoxLang_DimPrintedWithoutUnit.cfg",
+              "NEG_BoxLang_FormatDropsCommas.cfg"}
+
 MODELS = [  # (evidence name, cfg stem, what)
     ("BoxLang.lists_roundtrip", "MC_BoxLang_lists"),
     ("BoxLang.lists_text_roundtrip", "MC_BoxLang_listtext"),
@@ -151,9 +155,16 @@ def bind(ctx, part, events, stats_path, parts):
     return n
 
 
+MODELS_THOROUGH_ONLY = [
+    ("BoxLang.lists_roundtrip_wide", "MC_BoxLang_listswide"),   # content lists of two nodes inside nested lists
+    ("BoxLang.calls_binding_rich", "MC_BoxLang_callsrich"),     # all functions, two arguments, the larger value alphabet
+]
+
+
 def run_models(ctx):
     sfx = "" if ctx.quick else "_thorough"
     w = 3 if ctx.quick else 4
+    models = MODELS if ctx.quick else MODELS + MODELS_THOROUGH_ONLY
 
     def one(name, stem):
         return tlc_model(ctx, name, "MC_BoxLang", f"{stem}{sfx}.cfg", workers=w, coverage=False, xss="256m",
@@ -163,11 +174,13 @@ def run_models(ctx):
         tlc_expect_refuted("MC_BoxLang", cfg, what, workers=2, xss="256m", xmx="2g")
         return cfg
 
+    # quick: one negative control per model (all of them in the thorough tier and in --selftest)
+    negs = [x for x in NEGS if x[0] in QUICK_NEGS] if ctx.quick else NEGS
     with cf.ThreadPoolExecutor(max_workers=3) as ex:
-        futs = [ex.submit(one, n, s) for n, s in MODELS] + [ex.submit(neg, c, wh) for c, wh in NEGS]
+        futs = [ex.submit(one, n, s) for n, s in models] + [ex.submit(neg, c, wh) for c, wh in negs]
         for f in futs:
             f.result()
-    ctx.cov["parts"]["BoxLang.negative_controls_refuted"] = len(NEGS)
+    ctx.cov["parts"]["BoxLang.negative_controls_refuted"] = len(negs)
 
 
 def replay_binding(ctx):
